@@ -243,6 +243,12 @@ def run(m: Model, r: Report, tier: str) -> None:
         r.check(not leak, "R3", f"{rs.qualname}#failed-change-fails-recovery",
                 "after a session change of the stack re-entry raised (timeout, connection loss) the function can still continue with the next session / return True: "
                 + ", ".join(repr(gr.nodes[x]) for x in sorted(leak)) + "; the scan then probes from a session that is not the one on the stack", loc=rs.loc)
+    rt_true = [n for n in ast.walk(rs.node) if isinstance(n, ast.Return) and n.value is not None and ast.unparse(n.value) == "True"]
+    top = rs.node.body
+    r.check(len(rt_true) == 1 and rt_true[0] is top[-1] and rloops[0] in top and not any(isinstance(x, ast.Return) for st in top[:top.index(rloops[0])] for x in ast.walk(st)),
+            "R3", f"{rs.qualname}#success-only-after-re-entry",
+            "success is reported somewhere else than after the loop that re-enters every session of the stack (e.g. a shortcut on the client-side session state, "
+            "which only reflects replies the client could parse): the scan then continues from a session that may not be the top of the stack", loc=rs.loc)
     negc = [n for n in gr.nodes.values() if n.kind == "cond" and n.ast is not None and "NegativeResponse" in ast.unparse(n.ast) and "isinstance" in ast.unparse(n.ast)]
     if not negc:
         raise AnalysisError(f"{rs.qualname}: negative response test not found")
